@@ -30,12 +30,13 @@ def is_call(v, suffix):
     return x[0] in ('call', 'pcall') and x[1].endswith(suffix)
 
 
-def check_clamp(ctx, rep, rule='G-clamp'):
-    f = ctx.facts()
-    b, ps = rep.explore(ctx, INTER, rule)
+def clamped_points(ctx, rep, rule):
+    """(body, [(path, variant, [(raw point value, clamped?, box ok?)])]) for the return paths of intersection() with
+    intersection_impl expanded into it, so that it does not matter in which of the two the clamp is applied"""
+    b, ps = rep.explore(ctx, INTER, rule, expand=(IMPL,))
     if b is None:
-        return
-    n = 0
+        return None, []
+    out = []
     for p in ps:
         if p.end != 'return':
             continue
@@ -44,28 +45,39 @@ def check_clamp(ctx, rep, rule='G-clamp'):
             rep.ob(rule, 'returns-LineIntersection', False, 'intersection() returns %s' % show(noepoch(r))[:80], loc=b.loc(b.j['line_lo']),
                    reason='cannot-tabulate')
             continue
-        for i, payload in enumerate(r[4]):
-            n += 1
+        pts = []
+        for payload in r[4]:
             x = strip_upd(payload)
-            ok = False
-            why = show(noepoch(x))[:100]
             if is_call(x, 'constrain_to_bounding_box') and len(x[2]) == 2:
-                pt, bb = strip_upd(x[2][0]), strip_upd(x[2][1])
-                # point: payload i of intersection_impl(a1,a2,b1,b2); box: payload of get_intersection_bounding_box(a1,a2,b1,b2)
-                def src(v, fn):
-                    for y in sym.walk(v):
-                        if y[0] in ('call', 'pcall') and y[1].endswith(fn):
-                            return [pname(a) for a in y[2]]
-                    return None
-                a_pt = src(pt, 'intersection_impl')
-                a_bb = src(bb, 'get_intersection_bounding_box')
-                same_variant = pt[0] == 'field' and str(pt[2]) == str(i) and strip_upd(pt[1])[0] == 'variant' and strip_upd(pt[1])[2] == r[2]
-                ok = a_pt == ['a1', 'a2', 'b1', 'b2'] and a_bb == ['a1', 'a2', 'b1', 'b2'] and same_variant
-                why = 'point from intersection_impl%s payload %s.%s, box from get_intersection_bounding_box%s' % (a_pt, strip_upd(pt[1])[2] if pt[0] == 'field' and strip_upd(pt[1])[0] == 'variant' else '?', pt[2] if pt[0] == 'field' else '?', a_bb)
-            rep.ob(rule, '%s.%d-clamped' % (r[2], i), ok,
-                   'payload %d of LineIntersection::%s must be constrain_to_bounding_box(<same payload of intersection_impl(a1,a2,b1,b2)>, '
-                   '<box of the same four points>); found %s' % (i, r[2], why), loc=b.loc(b.j['line_lo']), reason='provenance')
-    rep.floor(rule, 'returned payloads', n, 3)
+                raw, bb = x[2][0], strip_upd(x[2][1])
+                src = None
+                for y in sym.walk(bb):
+                    if y[0] in ('call', 'pcall') and y[1].endswith('get_intersection_bounding_box'):
+                        src = [pname(a) for a in y[2]]
+                # the box must be the payload of the Option returned for the same four points (not a part or a copy with changes)
+                whole = bb[0] == 'field' and str(bb[2]) == '0' and strip_upd(bb[1])[0] == 'variant' and strip_upd(bb[1])[2] == 'Some' \
+                    and strip_upd(strip_upd(bb[1])[1])[0] in ('call', 'pcall')
+                pts.append((raw, True, src == ['a1', 'a2', 'b1', 'b2'] and whole))
+            else:
+                pts.append((payload, False, False))
+        out.append((p, r[2], pts))
+    return b, out
+
+
+def check_clamp(ctx, rep, rule='G-clamp'):
+    f = ctx.facts()
+    b, rows = clamped_points(ctx, rep, rule)
+    if b is None:
+        return
+    n = 0
+    for (p, variant, pts) in rows:
+        for i, (raw, clamped, box_ok) in enumerate(pts):
+            n += 1
+            rep.ob(rule, '%s.%d-clamped' % (variant, i), clamped and box_ok,
+                   'payload %d of LineIntersection::%s must be constrain_to_bounding_box(<computed point>, <common box of the same four '
+                   'points>); found %s (clamped: %s, box of a1,a2,b1,b2: %s)' % (i, variant, show(noepoch(raw))[:90], clamped, box_ok),
+                   loc=b.loc(b.j['line_lo']), reason='provenance')
+    rep.floor(rule, 'returned payloads', n, 8)
     # intersection_impl is private to intersection()
     cg = CallGraph(f)
     callers = sorted(n2 for n2, succ in cg.edges.items() if IMPL in succ and n2 in f.bodies)
@@ -128,113 +140,185 @@ def check_clamp(ctx, rep, rule='G-clamp'):
     rep.floor(rule, 'clamp rows', rows, 12)
 
 
+def _float_simplify(v):
+    """exact floating-point identities only: 0*x = 0, 1*x = x, x+0 = x, x-0 = x (finite x)"""
+    from rules.degreerules import callee_kind
+    x = strip_upd(v)
+    if x[0] in ('pcall', 'call'):
+        kind = callee_kind(x[1])
+        if kind in ('add', 'sub', 'mul') and len(x[2]) == 2:
+            a, b = _float_simplify(x[2][0]), _float_simplify(x[2][1])
+            za, zb = a == ('k', 0), b == ('k', 0)
+            oa, ob = a == ('k', 1), b == ('k', 1)
+            if kind == 'mul':
+                if za or zb:
+                    return ('k', 0)
+                if oa:
+                    return b
+                if ob:
+                    return a
+                return ('mul', a, b)
+            if kind == 'add':
+                if za:
+                    return b
+                if zb:
+                    return a
+                return ('add', a, b)
+            if zb:
+                return a
+            return ('sub', a, b)
+        if kind == 'poly' and x[1].endswith('Zero::zero'):
+            return ('k', 0)
+        if kind == 'one':
+            return ('k', 1)
+    if x[0] == 'k':
+        return x
+    nm = pname(x)
+    if nm:
+        return ('v', nm)
+    if x[0] == 'field' and x[2] in ('x', 'y'):
+        inner = strip_upd(x[1])
+        if inner[0] == 'agg' and x[2] in inner[3]:
+            return _float_simplify(inner[4][inner[3].index(x[2])])
+    return ('?', show(noepoch(x))[:40])
+
+
+def _subst_rat(v, target, const):
+    """replace every sub-term that is (as a rational function) the parameter `target` by the constant 0 / 1"""
+    from rules import ratfun
+    x = strip_upd(v)
+    if x[0] in ('pcall', 'call'):
+        try:
+            alts = ratfun.alternatives(x)
+            if len(alts) == 1 and alts[0].same(target):
+                return ('k', const)
+        except ratfun.NotRational:
+            pass
+        return (x[0], x[1], tuple(_subst_rat(a, target, const) for a in x[2]), x[3] if len(x) > 3 else 0)
+    if x[0] == 'field' and x[2] in ('x', 'y'):
+        inner = strip_upd(x[1])
+        if inner[0] == 'agg' and x[2] in inner[3]:
+            return _subst_rat(inner[4][inner[3].index(x[2])], target, const)
+    return x
+
+
 def check_ranges(ctx, rep, rule='I-ranges'):
-    """shape of intersection_impl: mirrored parameter range tests, endpoint reuse, collinear overlap test"""
-    b, ps = rep.explore(ctx, IMPL, rule, opaque=('boolean::segment_intersection::cross_product',
-                                                 'boolean::segment_intersection::dot_product',
-                                                 'boolean::segment_intersection::mid_point'))
+    """parameter range tests and endpoint reuse of the crossing arm, read from intersection() with intersection_impl expanded;
+    s and t are recognised as rational functions of the inputs (not by the names of the helpers that compute them):
+    s < 0, s > 1, t < 0, t > 1 each lead to None; when s (resp. t, with s strictly inside) is exactly 0 or 1 the reported
+    point is the floating-point expression p + s*d of the segment that parameter belongs to, so that s == 0 reproduces the end
+    point bit for bit; collinear arm: overlap iff smin <= 1 && smax >= 0, a single point when smin == 1 or smax == 0."""
+    from rules import ratfun
+    from rules.ratfun import var, NotRational
+    b, rows_ = clamped_points(ctx, rep, None)
     if b is None:
         return
-    # name the scalar parameters by the computation that produced them
-    def scalar(v):
-        x = strip_upd(v)
-        if x[0] in ('pcall', 'call'):
-            n = short(x[1]).split('::')[-1]
-            if n in ('zero', 'one'):
-                return n
-            if n in ('div', 'mul', 'add', 'sub', 'min', 'max'):
-                return '%s(%s)' % (n, ','.join(scalar(a) for a in x[2]))
-            if n in ('cross_product', 'dot_product'):
-                return '%s(%s)' % (n[:-8], ','.join(vec(a) for a in x[2]))
-            return n
-        nm = pname(x)
-        return nm or show(noepoch(x))[:30]
+    A1, A2, B1, B2 = [(var('%s.x' % n), var('%s.y' % n)) for n in ('a1', 'a2', 'b1', 'b2')]
+    va = (A2[0] - A1[0], A2[1] - A1[1])
+    vb = (B2[0] - B1[0], B2[1] - B1[1])
+    e = (B1[0] - A1[0], B1[1] - A1[1])
+    cross = lambda p_, q_: p_[0] * q_[1] - p_[1] * q_[0]
+    dot = lambda p_, q_: p_[0] * q_[0] + p_[1] * q_[1]
+    kross = cross(va, vb)
+    S, T = cross(e, vb) / kross, cross(e, va) / kross
+    SA = dot(va, e) / dot(va, va)
+    SB = SA + dot(va, vb) / dot(va, va)
 
-    def vec(v):
-        x = strip_upd(v)
-        if x[0] == 'agg' and x[5].endswith('Coord'):
-            xs = scalar(x[4][0])
-            m = re.match(r'^sub\((\w+)\.x,(\w+)\.x\)$', xs)
-            ys = scalar(x[4][1])
-            m2 = re.match(r'^sub\((\w+)\.y,(\w+)\.y\)$', ys)
-            if m and m2 and m.groups() == m2.groups():
-                return '%s-%s' % m.groups()
-            return 'Coord(%s,%s)' % (xs, ys)
-        return pname(x) or '?'
+    _names = {}
 
-    S = 'div(cross(b1-a1,b2-b1),cross(a2-a1,b2-b1))'
-    T = 'div(cross(b1-a1,a2-a1),cross(a2-a1,b2-b1))'
-    cases = {}
-    for p in ps:
-        if p.end != 'return':
-            continue
+    def scalar_name(v):
+        k_ = noepoch(strip_upd(v))
+        if k_ not in _names:
+            _names[k_] = scalar_name0(v)
+        return _names[k_]
+
+    def scalar_name0(v):
+        x = strip_upd(v)
+        try:
+            alts = ratfun.alternatives(x)
+        except NotRational:
+            return None
+        if len(alts) == 1:
+            r = alts[0]
+            for nm, ref in (('s', S), ('t', T), ('sa', SA), ('sb', SB)):
+                if r.same(ref):
+                    return nm
+            if r.is_zero():
+                return 'zero'
+            if r.same(ratfun.const(1)):
+                return 'one'
+            return None
+        if len(alts) == 2 and {True} == {any(a.same(ref) for a in alts) for ref in (SA, SB)}:
+            k = x[1].split('::')[-1] if x[0] in ('pcall', 'call') else '?'
+            return 'smin' if k == 'min' else ('smax' if k == 'max' else None)
+        return None
+
+    cases = []
+    for (p, variant, pts) in rows_:
         conds = []
         for (v, c) in p.conds:
             x = strip_upd(v)
-            if x[0] == 'op' and len(x) == 4:
-                conds.append((x[1], scalar(x[2]), scalar(x[3]), c[1]))
-            else:
-                conds.append(('?', show(noepoch(x))[:40], '', c[1]))
-        r = strip_upd(p.ret)
-        kind = r[2] if r[0] == 'agg' else '?'
-        pts = []
-        for pl in (r[4] if r[0] == 'agg' else []):
-            y = strip_upd(pl)
-            if is_call(y, 'mid_point') and len(y[2]) == 3:
-                pts.append((pname(y[2][0]), scalar(y[2][1]), vec(y[2][2])))
-            else:
-                pts.append(('?', show(noepoch(y))[:40], '?'))
-        cases.setdefault((tuple(conds), kind, tuple(pts)), p)
-    n = 0
-
-    def find(pred):
-        return [(c, k, pts) for (c, k, pts) in cases if pred(c, k, pts)]
+            if x[0] == 'op' and len(x) == 4 and x[1] in ('lt', 'gt', 'le', 'ge', 'eq', 'ne'):
+                a, b_ = scalar_name(x[2]), scalar_name(x[3])
+                if a and b_:
+                    conds.append((x[1], a, b_, bool(c[1])))
+        cases.append((conds, variant, [raw for (raw, _, _) in pts], p))
 
     def has(conds, op, a, b_, val):
-        return any(o == op and x == a and y == b_ and v == val for (o, x, y, v) in conds)
+        flip = {'lt': 'gt', 'gt': 'lt', 'le': 'ge', 'ge': 'le', 'eq': 'eq', 'ne': 'ne'}
+        neg = {'lt': 'ge', 'gt': 'le', 'le': 'gt', 'ge': 'lt', 'eq': 'ne', 'ne': 'eq'}
+        for (o, x, y, v) in conds:
+            for (o2, x2, y2) in ((o, x, y), (flip[o], y, x)):
+                if (o2, x2, y2, v) == (op, a, b_, val) or (neg[o2], x2, y2, not v) == (op, a, b_, val):
+                    return True
+        return False
 
-    # 1. parameter range tests are the mirrored pairs s<0 || s>1, t<0 || t>1 and lead to None
-    for nm, expr in (('s', S), ('t', T)):
+    n = 0
+    # 1. range tests lead to None
+    for nm in ('s', 't'):
         for op, bound in (('lt', 'zero'), ('gt', 'one')):
-            hits = find(lambda c, k, pts: has(c, op, expr, bound, True))
+            hits = [(c, k) for (c, k, _, _) in cases if has(c, op, nm, bound, True)]
             n += 1
-            rep.ob(rule, 'range:%s-%s-%s' % (nm, op, bound), bool(hits) and all(k == 'None' for (_, k, _) in hits),
+            rep.ob(rule, 'range:%s-%s-%s' % (nm, op, bound), bool(hits) and all(k == 'None' for (_, k) in hits),
                    'the test %s %s %s must exist and reject the crossing (found %d paths, kinds %s)'
-                   % (nm, '<' if op == 'lt' else '>', '0' if bound == 'zero' else '1', len(hits), sorted(set(k for _, k, _ in hits))),
+                   % (nm, '<' if op == 'lt' else '>', '0' if bound == 'zero' else '1', len(hits), sorted(set(k for _, k in hits))),
                    loc=b.loc(b.j['line_lo']), reason='table-row')
-    # 2. exact endpoint parameters reuse the endpoint's own segment
-    for nm, expr, base, d in (('s', S, 'a1', 'a2-a1'), ('t', T, 'b1', 'b2-b1')):
-        for bound in ('zero', 'one'):
-            hits = find(lambda c, k, pts: has(c, 'eq', expr, bound, True) and k == 'Point' and
-                        not (nm == 't' and (has(c, 'eq', S, 'zero', True) or has(c, 'eq', S, 'one', True))))
+    # 2. exact endpoint parameters: the point is p + param*d of the parameter's own segment (so that 0 reproduces p exactly)
+    for nm, ref, base, other_end in (('s', S, 'a1', 'a2'), ('t', T, 'b1', 'b2')):
+        for bound, const in (('zero', 0), ('one', 1)):
+            hits = [(c, k, raws) for (c, k, raws, _) in cases if has(c, 'eq', nm, bound, True) and k == 'Point' and
+                    not (nm == 't' and (has(c, 'eq', 's', 'zero', True) or has(c, 'eq', 's', 'one', True)))]
+            ok = bool(hits)
+            found = None
+            for (c, k, raws) in hits:
+                q = strip_upd(raws[0])
+                if not (q[0] == 'agg' and len(q[4]) == 2):
+                    ok = False
+                    continue
+                for axis, comp in zip(('x', 'y'), q[4]):
+                    got = _float_simplify(_subst_rat(comp, ref, const))
+                    p0 = ('v', '%s.%s' % (base, axis))
+                    d0 = ('sub', ('v', '%s.%s' % (other_end, axis)), p0)
+                    want = [p0] if const == 0 else [('add', p0, d0), ('add', d0, p0)]
+                    found = got
+                    ok = ok and got in want
             n += 1
-            ok = bool(hits) and all(pts == ((base, expr, d),) for (_, _, pts) in hits)
-            rep.ob(rule, 'endpoint:%s==%s' % (nm, '0' if bound == 'zero' else '1'), ok,
-                   'when %s == %s the point must be computed on the segment %s belongs to (%s + %s*(%s)); found %s'
-                   % (nm, bound, nm, base, nm, d, sorted(set(pts for (_, _, pts) in hits))[:2]), loc=b.loc(b.j['line_lo']), reason='table-row')
-    # 3. general crossing: from a with parameter s
-    hits = find(lambda c, k, pts: k == 'Point' and has(c, 'eq', S, 'zero', False) and has(c, 'eq', S, 'one', False)
-                and has(c, 'eq', T, 'zero', False) and has(c, 'eq', T, 'one', False))
-    n += 1
-    rep.ob(rule, 'interior-crossing-point', bool(hits) and all(pts == (('a1', S, 'a2-a1'),) for (_, _, pts) in hits),
-           'an interior crossing must be reported as a1 + s*(a2-a1); found %s' % sorted(set(pts for (_, _, pts) in hits))[:2],
-           loc=b.loc(b.j['line_lo']), reason='table-row')
-    # 4. collinear arm: overlap iff smin <= 1 && smax >= 0, point when smin == 1 or smax == 0, clipped to [0,1]
-    ov = find(lambda c, k, pts: k == 'Overlap')
+            rep.ob(rule, 'endpoint:%s==%s' % (nm, const), ok,
+                   'when %s == %s the point must be computed on the segment %s belongs to (%s + %s*(%s-%s)), so that the end point is '
+                   'reproduced; with the parameter substituted the code computes %s' % (nm, const, nm, base, nm, other_end, base, found),
+                   loc=b.loc(b.j['line_lo']), reason='table-row')
+    # 3. collinear arm: overlap iff smin <= 1 && smax >= 0, single point when smin == 1 or smax == 0
+    ov = [(c, k) for (c, k, _, _) in cases if k == 'Overlap']
     n += 1
     ok = bool(ov)
-    for (c, k, pts) in ov:
-        smin = [x for (o, x, y, v) in c if o == 'le' and y == 'one' and v is True]
-        smax = [x for (o, x, y, v) in c if o == 'ge' and y == 'zero' and v is True]
-        ok = ok and len(smin) == 1 and len(smax) == 1 and smin[0].startswith('min(') and smax[0].startswith('max(')
-        if ok:
-            ok = pts == (('a1', 'max(%s,zero)' % smin[0], 'a2-a1'), ('a1', 'min(%s,one)' % smax[0], 'a2-a1'))
-            ok = ok and has(c, 'eq', smin[0], 'one', False) and has(c, 'eq', smax[0], 'zero', False)
+    for (c, k) in ov:
+        ok = ok and has(c, 'le', 'smin', 'one', True) and has(c, 'ge', 'smax', 'zero', True) \
+            and has(c, 'eq', 'smin', 'one', False) and has(c, 'eq', 'smax', 'zero', False)
     rep.ob(rule, 'collinear-overlap', ok,
-           'collinear segments must overlap iff smin <= 1 && smax >= 0 (not merely touching), reported as a1 + clamp(smin,smax)*(a2-a1); '
-           'found %s' % [(pts, [x for x in c if x[0] in ('le', 'ge', 'lt', 'gt')][-2:]) for (c, k, pts) in ov][:1], loc=b.loc(b.j['line_lo']), reason='table-row')
+           'collinear segments must be reported as an overlap iff smin <= 1 && smax >= 0 and neither smin == 1 nor smax == 0 (those '
+           'touch in a single point); conditions found: %s' % [c for (c, k) in ov][:1], loc=b.loc(b.j['line_lo']), reason='table-row')
     rep.rows_compared += n
-    rep.floor(rule, 'distinct return cases of intersection_impl', len(cases), 12)
+    rep.floor(rule, 'return cases of intersection()', len(cases), 12)
 
 
 def check_bbox_symmetry(ctx, rep, rule='I-ranges'):
@@ -271,9 +355,11 @@ def check_algebra(ctx, rep, rule='I-algebra'):
     both b-endpoints are selectable."""
     from rules import ratfun
     from rules.ratfun import var, const, NotRational
-    b, ps = rep.explore(ctx, IMPL, rule)
+    b, rows_ = clamped_points(ctx, rep, None)
     if b is None:
         return
+    ps = [p_ for (p_, _, _) in rows_]
+    raw_of = {id(p_): (variant_, [raw_ for (raw_, _, _) in pts_]) for (p_, variant_, pts_) in rows_}
     A1, A2, B1, B2 = [(var('%s.x' % n), var('%s.y' % n)) for n in ('a1', 'a2', 'b1', 'b2')]
     va = (A2[0] - A1[0], A2[1] - A1[1])
     vb = (B2[0] - B1[0], B2[1] - B1[1])
@@ -295,9 +381,10 @@ def check_algebra(ctx, rep, rule='I-algebra'):
     for p in ps:
         if p.end != 'return':
             continue
-        r = strip_upd(p.ret)
-        if r[0] != 'agg' or r[2] not in ('Point', 'Overlap'):
+        variant_, raws_ = raw_of[id(p)]
+        if variant_ not in ('Point', 'Overlap'):
             continue
+        r = ('agg', 'adt', variant_, (), tuple(raws_), 'LineIntersection')
         # which arm: the truth of the tests "kross (or its square) is non-zero" / "cross(e, va) (or its square) is non-zero"
         arm = None
         collinear_tested = False
